@@ -19,6 +19,15 @@ pub(crate) struct StaticValue {
     v: Box<dyn Any>,
 }
 
+impl Drop for Set {
+    fn drop(&mut self) {
+        // See `LocalValue`: the statics of a failed execution are leaked.
+        if std::thread::panicking() {
+            std::mem::forget(self.statics.take());
+        }
+    }
+}
+
 impl Set {
     /// Create an empty statics set.
     pub(crate) fn new() -> Set {
